@@ -121,7 +121,7 @@ func runC02(c *Ctx) {
 				}
 			case *ssa.BinOp:
 				if (v.Op == token.GTR || v.Op == token.NEQ) && isLenOf(v.X, func(x ssa.Value) bool { return sl.Derives(x, svsm) }) {
-					if k, ok := v.Y.(*ssa.Const); ok && k.Value != nil && constant.Sign(k.Value) == 0 {
+					if k, ok := v.Y.(*ssa.Const); ok && isZeroIntConst(k) {
 						nPresent++
 						return []esp.Ev{{ID: evPresent, Name: "len(SvsmMeasurement) > 0", ErrIdx: -1, BoolIdx: 0}}
 					}
